@@ -225,6 +225,11 @@ add("C03",
 
 # ---------------------------------------------------------------- C20
 add("C20",
+    V("memo-guard-consults-sibling-table", "C20", [("dateparser/languages/dictionary.py", "    def _get_split_regex_cache(self):\n        if (\n            self._settings.registry_key not in self._split_regex_cache\n            or self.info[\"name\"]\n            not in self._split_regex_cache[self._settings.registry_key]\n        ):\n", "    def _get_split_regex_cache(self):\n        if (\n            self._settings.registry_key not in self._sorted_words_cache\n            or self.info[\"name\"]\n            not in self._sorted_words_cache[self._settings.registry_key]\n        ):\n")], "fire", "C20.R4", note="seeded change C20-5"),
+    V("last-parser-slot-read-twice", "C20", [("dateparser/__init__.py", "    parser = _default_parser\n", "    global _recent_parser\n    parser = _default_parser\n"),
+        ("dateparser/__init__.py", "_default_parser = DateDataParser()\n", "_default_parser = DateDataParser()\n_recent_parser = (None, None)\n"),
+        ("dateparser/__init__.py", "        parser = DateDataParser(\n", "        arguments = (languages, locales, region, settings, detect_languages_function)\n        if detect_languages_function or _recent_parser[0] != arguments:\n            _recent_parser = arguments, None\n        parser = DateDataParser(\n")], "fire", "C20.R1",
+      note="seeded change C20-6 (shape): a module-level slot rebound under a disjunctive guard that mentions detect_languages_function"),
     V("split-result-memo-on-shared-dictionary", "C20", [("dateparser/languages/dictionary.py", "        self._relative_strings = list(chain.from_iterable(relative_type_regex.values()))\n", "        self._relative_strings = list(chain.from_iterable(relative_type_regex.values()))\n        self._last_split = None\n"),
         ("dateparser/languages/dictionary.py", "        return list(filter(bool, chain.from_iterable(tokens)))\n", "        tokens = list(filter(bool, chain.from_iterable(tokens)))\n        self._last_split = ((string, keep_formatting), tuple(tokens))\n        return tokens\n")], "fire", "C20.R1",
       note="seeded change C03-4: a per-call value stored on a Dictionary that lives as long as its Locale"),
